@@ -1,7 +1,7 @@
 (** C04P.v — whatever the scheduler, the score hysteresis or the best-path override
     chooses is an eligible uplink: not registering, not timed out, not stall-gated. *)
 From Coq Require Import Floats.
-From Srtla Require Import Base Constants FConstants Stall StallSel Route Run_C04.
+From Srtla Require Import Base Constants FConstants Stall StallSel StallP Route Run_C04.
 From Coq Require Import ZifyBool.
 Local Open Scope Z_scope.
 
@@ -244,9 +244,36 @@ Qed.
 Lemma F2_length {A B} (R : A -> B -> Prop) l l' : Forall2 R l l' -> length l = length l'.
 Proof. induction 1; cbn; congruence. Qed.
 
+Lemma Forall2_nth_error_r {A B} (R : A -> B -> Prop) la lb :
+  Forall2 R la lb -> forall i b, nth_error lb i = Some b -> exists a, nth_error la i = Some a /\ R a b.
+Proof.
+  induction 1 as [|x y la lb Hxy H IH]; intros [|i] b0 E; cbn in *; try discriminate.
+  - inversion E; subst. eauto.
+  - eauto.
+Qed.
+
+(** every link leaves the decision with the configured liveness window in its own copy *)
+Lemma route_timeout_refreshed cfg last now ins critical p ls ls' s k l :
+  route true cfg last now ins critical p ls = (ls', s) -> nthZ ls' k = Some l ->
+  c_ctimeout (lc l) = cf_ctimeout cfg.
+Proof.
+  unfold route. pose proof (select_decided cfg last now ins ls) as Hd.
+  destruct (select cfg last now ins ls) as [ls1 sel]. cbn [fst] in Hd.
+  intros H Hn. inversion H; subst ls'. unfold nthZ in Hn. destruct (k <? 0); [discriminate|].
+  destruct (Forall2_nth_error_r _ _ _ Hd _ _ Hn) as (a & _ & (_ & _ & _ & Ec)). exact Ec.
+Qed.
+
+Lemma eligible_cfg_of_eligible cfg now l :
+  eligible now l = true -> c_ctimeout (lc l) = cf_ctimeout cfg -> eligible_cfg cfg now l = true.
+Proof.
+  intros He Ec. unfold eligible_cfg. rewrite He. cbn [andb].
+  unfold eligible in He. apply andb_true_iff in He as [He _]. apply andb_true_iff in He as [_ Ht].
+  unfold timed_out in Ht. rewrite Ec in Ht. exact Ht.
+Qed.
+
 Theorem handle_monitor cfg last now ins critical p ls : mon_C04 (model_case cfg last now ins critical p ls) = 0%N.
 Proof.
-  unfold mon_C04, model_case. cbn [r_pre r_post r_routed r_now r_pkt].
+  unfold mon_C04, model_case. cbn [r_pre r_post r_routed r_now r_pkt r_cfg].
   unfold handle. destruct (route true cfg last now ins critical p ls) as [ls1 s] eqn:Er.
   assert (Hx : Forall2 (fun a b => lx b = lx a) ls ls1).
   { pose proof (select_same_x cfg last now ins ls) as H. unfold route in Er.
@@ -258,8 +285,11 @@ Proof.
       destruct (route_elig _ _ _ _ _ _ _ _ _ Er) as (l & Hn & He).
       unfold nthZ in *. replace (k <? 0) with false in * by lia.
       pose proof (forward_nth k (p_data p) ls1 0 l) as Hf. rewrite Z.sub_0_r in Hf. rewrite (Hf Hn) by lia.
-      assert (Eb : eligible now (bump_queue l) = eligible now l) by reflexivity.
-      rewrite Eb, He. cbn [negb]. rewrite others_ok_forward by exact Hx. reflexivity.
+      assert (Eb : eligible_cfg cfg now (bump_queue l) = eligible_cfg cfg now l) by reflexivity.
+      assert (Hc : c_ctimeout (lc l) = cf_ctimeout cfg).
+      { eapply (route_timeout_refreshed cfg last now ins critical p ls ls1 (Some k) k l Er).
+        unfold nthZ. replace (k <? 0) with false by lia. exact Hn. }
+      rewrite Eb, (eligible_cfg_of_eligible cfg now l He Hc). cbn [negb]. rewrite others_ok_forward by exact Hx. reflexivity.
     + rewrite Hlen, Nat.eqb_refl. cbn [negb]. rewrite others_ok_none by exact Hx. reflexivity.
   - cbn [fst snd]. rewrite Hlen, Nat.eqb_refl. cbn [negb]. rewrite others_ok_none by exact Hx. reflexivity.
 Qed.
